@@ -379,6 +379,15 @@ RESTART:
 	}
 
 	if ph.Header.Height > m.initialHeight {
+		if len(checkResp.PrevValidatorSet.PubKeys) == 0 {
+			// The kernel does not report a previous validator set
+			// for a (late) proposed header at the committing height,
+			// so there is nothing to validate the previous commit proof against.
+			// An empty PubKeyHash in the proof would otherwise pass the comparison above
+			// and the proof scheme panics on an empty key set.
+			return tmconsensus.HandleProposedHeaderBadPrevCommitProofPubKeyHash
+		}
+
 		// Only confirm the previous commit proof if we are beyond the genesis height,
 		// as the initial height does not have previous commit proofs.
 		signBitsByHash, allSigsUnique := m.cmspScheme.ValidateFinalizedProof(
